@@ -18,6 +18,7 @@ import (
 	"github.com/b2broker/simplefix-go/utils"
 
 	"verifharness/rig"
+	"verifharness/wire"
 )
 
 type interval struct {
@@ -117,7 +118,7 @@ func session1(seed int64, i int) (ivs []interval, frames []rig.Frame, logged boo
 	buf := []int{0, 1, 10}[r.Intn(3)]
 	nSenders := 4 + r.Intn(5)
 	sweep := time.Duration(i%16) * 20 * time.Millisecond // inbound times are swept in 20 ms steps across the timer expiries
-	variant := []string{"resend+silence", "relogon", "register+query", "stop", "relogon-storm"}[(i/2)%5]
+	variant := []string{"resend+silence", "relogon", "register+query", "stop", "relogon-storm", "stalled-writer"}[(i/2)%6]
 	desc = fmt.Sprintf("%s buf=%d senders=%d sweep=%v variant=%s", role, buf, nSenders, sweep, variant)
 	tag := fmt.Sprintf("s%d|", i)
 	var imu sync.Mutex
@@ -126,7 +127,10 @@ func session1(seed int64, i int) (ivs []interval, frames []rig.Frame, logged boo
 		ivs = append(ivs, interval{tag + kind, from.UnixNano(), to.UnixNano()})
 		imu.Unlock()
 	}
-	f, err := rig.StartFull(rig.FullCfg{Role: role, HeartBtInt: 1, BufSize: buf, Notify: false, Label: fmt.Sprintf("c20-%d", i), CloseTimeout: 200 * time.Millisecond})
+	if variant == "stalled-writer" && buf > 1 {
+		buf = 1
+	}
+	f, err := rig.StartFull(rig.FullCfg{Role: role, HeartBtInt: 1, BufSize: buf, Notify: false, Label: fmt.Sprintf("c20-%d", i), CloseTimeout: 200 * time.Millisecond, WriteTimeout: 10 * time.Second})
 	if err != nil {
 		return
 	}
@@ -154,6 +158,13 @@ func session1(seed int64, i int) (ivs []interval, frames []rig.Frame, logged boo
 		at(50 * time.Millisecond)
 		l.Conn.Feed(p.Logon(1, "0"))
 		switch variant {
+		case "stalled-writer":
+			// the peer stops reading for 1.5 s (and is silent): a sender blocks on the full outgoing queue while it holds
+			// the send lock, both timer goroutines queue up behind it and go off back to back when the peer reads again
+			at(1500*time.Millisecond + sweep/4)
+			l.Conn.SetWriteMode(wire.WriteStall)
+			at(3000*time.Millisecond + sweep/4)
+			l.Conn.SetWriteMode(wire.WriteAccept)
 		case "resend+silence":
 			// traffic, then a heartbeat + resend request placed around the test-request expiry (2 s after the last inbound)
 			at(400 * time.Millisecond)
